@@ -118,37 +118,50 @@ structure Scan where
   tooLong : Bool := false
 deriving Repr, DecidableEq
 
+/-- bytes held in the scanner's buffer: `s.buf[s.start:s.end]` -/
+def Scan.held (s : Scan) : Nat := s.end_ - s.start
+/-- position in the source of `s.buf[s.start]` -/
+def Scan.base (s : Scan) : Nat := s.off - s.held
+
+/-- `if s.end > s.start || s.err != nil { advance, token, err := s.split(s.buf[s.start:s.end], s.err != nil) … }` with
+`ScanLines`: position, length, advance of the token, if there is one -/
+def Scan.token (data : Array Bool) (s : Scan) : Option (Nat × Nat × Nat) :=
+  if s.held > 0 || s.eof then
+    match findNL data s.off (s.held + 1) s.base with
+    | some i => some (s.base, i - s.base, i + 1 - s.base)
+    | none => if s.eof && s.held > 0 then some (s.base, s.held, s.held) else none
+  else none
+
+/-- "First, shift data to beginning of buffer if there's lots of empty space or space is needed." -/
+def Scan.shift (s : Scan) : Scan :=
+  if s.start > 0 && (s.end_ == s.cap || s.start > s.cap / 2) then { s with end_ := s.held, start := 0 } else s
+
+/-- "Is the buffer full?" … and already as large as a token may be: `ErrTooLong` -/
+def Scan.full (cfg : ScanCfg) (s : Scan) : Bool := s.end_ == s.cap && s.cap ≥ cfg.maxTok
+
+/-- "If so, resize." -/
+def Scan.grow (cfg : ScanCfg) (s : Scan) : Scan :=
+  if s.end_ == s.cap then
+    { s with cap := (if s.cap == 0 then cfg.startBuf else min (s.cap * 2) cfg.maxTok), end_ := s.end_ - s.start, start := 0 }
+  else s
+
+/-- `s.r.Read(s.buf[s.end:len(s.buf)])` on a `bytes.Buffer`: an empty buffer answers `0, io.EOF`, otherwise `copy` of
+what fits -/
+def Scan.read (data : Array Bool) (s : Scan) : Scan :=
+  if data.size - s.off == 0 then { s with eof := true }
+  else { s with end_ := s.end_ + min (s.cap - s.end_) (data.size - s.off), off := s.off + min (s.cap - s.end_) (data.size - s.off) }
+
 /-- One call of `Scan()`: `some (pos, len)` = a token (absolute position in the source, length without the
 newline), `none` = `false`. `fuel` bounds the inner `for` (every round either returns or reads ≥ 1 byte or sets EOF). -/
 def Scan.next (cfg : ScanCfg) (data : Array Bool) : Nat → Scan → Option (Nat × Nat) × Scan
   | 0, s => (none, s)
   | fuel+1, s =>
-    let held := s.end_ - s.start
-    let base := s.off - held
-    -- `if s.end > s.start || s.err != nil { advance, token, err := s.split(…) … }`
-    let tokenNow : Option (Nat × Nat × Nat) :=      -- position, length, advance
-      if held > 0 || s.eof then
-        match findNL data s.off (held + 1) base with
-        | some i => some (base, i - base, i + 1 - base)
-        | none => if s.eof && held > 0 then some (base, held, held) else none
-      else none
-    match tokenNow with
+    match s.token data with
     | some (p, l, adv) => (some (p, l), { s with start := s.start + adv })
     | none =>
       if s.eof then (none, { s with start := 0, end_ := 0 }) else
-      -- shift
-      let s := if s.start > 0 && (s.end_ == s.cap || s.start > s.cap / 2) then { s with end_ := held, start := 0 } else s
-      -- grow
-      if s.end_ == s.cap && s.cap ≥ cfg.maxTok then (none, { s with tooLong := true }) else
-      let s := if s.end_ == s.cap then
-          { s with cap := (if s.cap == 0 then cfg.startBuf else min (s.cap * 2) cfg.maxTok), end_ := s.end_ - s.start, start := 0 }
-        else s
-      -- `bytes.Buffer.Read`: an empty buffer answers `0, io.EOF`, otherwise `copy` of what fits
-      let remaining := data.size - s.off
-      if remaining == 0 then Scan.next cfg data fuel { s with eof := true }
-      else
-        let n := min (s.cap - s.end_) remaining
-        Scan.next cfg data fuel { s with end_ := s.end_ + n, off := s.off + n }
+      if s.shift.full cfg then (none, { s.shift with tooLong := true }) else
+      Scan.next cfg data fuel ((s.shift.grow cfg).read data)
 
 /-- The scanner loop of `Parse`: tokens are taken until `stop` says "syntax error in this line" (1-based line
 number) or `Scan` returns false; the result is the final scanner state and the number of tokens taken. -/
